@@ -125,8 +125,14 @@ func (g *oaGen) schemaName() string {
 	r := g.r
 	switch {
 	case g.spice["schema-native"] && r.Chance(1, 3):
-		g.con("schema-name-native-type")
-		return g.uniq(r.Pick(nativeSchemas))
+		// an unused native type name (a numbered variant would fall into the
+		// "starts with a native type name" class instead)
+		for _, k := range r.Perm(len(nativeSchemas)) {
+			if n := nativeSchemas[k]; !g.used[strings.ToLower(n)] {
+				g.con("schema-name-native-type")
+				return g.uniq(n)
+			}
+		}
 	case g.spice["schema-keyword"] && r.Chance(1, 3):
 		g.con("schema-name-keyword")
 		return g.uniq(r.Pick(kwSchemas))
@@ -401,6 +407,9 @@ func genOA(r *fw.Rand, v int, thorough bool) *oaDoc {
 			case x < 8:
 				g.con("top-array-of-primitive")
 				s = &oaSchema{K: "arr", Items: g.prim()}
+				for v == 3 && !g.spice["top-prim-odd"] && (s.Items.P.Format == "int32" || s.Items.P.Format == "int64") {
+					s.Items = g.prim()
+				}
 			default:
 				g.con("top-array-of-object")
 				s = &oaSchema{K: "arr", Items: g.object(allowed, 1, 1+r.Intn(3))}
